@@ -223,10 +223,16 @@ def _save_file(
         weight_map: dict[str, str] = {}  # Maps tensor name to shard filename
         current_offset = 0
         current_index = 0
+        # Shards are written under temporary names and moved into place only after all of
+        # them are written: a tensor to save may be backed by a file that an earlier shard
+        # of this very save is about to replace (saving a loaded model in place).
+        pending_shard_files: list[tuple[str, str]] = []
         for shard_idx, tensor_shard in enumerate(tensor_shards, start=1):
             shard_filename = _get_shard_filename(str(location), shard_idx, total_shards)
 
-            shard_path = os.path.join(base_dir, shard_filename)
+            final_shard_path = os.path.join(base_dir, shard_filename)
+            shard_path = final_shard_path + ".tmp"
+            pending_shard_files.append((shard_path, final_shard_path))
             all_filenames.append(shard_filename)
 
             # Build tensor_dict for this shard only
@@ -278,6 +284,9 @@ def _save_file(
                         data_len=len(data),
                     )
                 safetensors.serialize_file(tensor_specs, shard_path)
+
+        for temporary_path, final_path in pending_shard_files:
+            os.replace(temporary_path, final_path)
 
         # Save index file if sharding occurred
         if total_shards > 1:
